@@ -1,7 +1,7 @@
 ''' C15 — TCPCL enforces its TLS and peer-authentication policy (structural clauses). '''
 import ast
 import itertools
-from ..core import AnalysisError, walk_local, calls_in, call_name, dotted, src, self_attr
+from ..core import AnalysisError, walk_local, calls_in, call_name, dotted, src, self_attr, enclosing
 from ..lib import (FuncView, pm, method_calls, one, at_least, stores_to_self_attr, const_str, path_text)
 from ..cfg import handler_names
 from .. import norm
@@ -61,6 +61,14 @@ def c15a(tree, ob):
 def c15b(tree, ob):
     fv = FuncView(tree, SESS, 'Messenger.recv_message')
     cfg = fv.cfg
+    # octets that followed the contact header in the clear stay in the receive buffer; the handshake runs from inside the
+    # receive loop, which would go on with them as if they had come through TLS
+    for sec in method_calls(fv.func, 'secure', 'self'):
+        if fv.has(sec, 'self.__rx_buf', False) or fv.has(sec, 'len(self.__rx_buf) == 0', True):
+            ob.site(SESS, sec, 'TLS starts only with an empty receive buffer')
+        else:
+            ob.violate(SESS, fv.qual, src(sec)[:60] + ' with octets left in self.__rx_buf', 'a message sent in the clear behind the contact header (e.g. a SESS_INIT) is acted on after the handshake as if '
+                       'it had arrived through TLS: the session is reported secure and established on unauthenticated input', sec)
     inits = [c for c in method_calls(fv.func, 'send_sess_init', 'self') if fv.has(c, 'isinstance(pkt, contact.Head)', True)]
     init = one(inits, 'active-side SESS_INIT after contact negotiation', ob)
     S = fv.node(init)
@@ -349,7 +357,29 @@ def c15d(tree, ob):
             ob.site(SESS, c, 'session-start callback after authentication')
     funnel_order(tree, ob)
     hs = [h for h in walk_local(fv.func) if isinstance(h, ast.ExceptHandler) and any(nm and nm.endswith('TerminateError') for nm in handler_names(h))]
-    h = one(hs, 'TerminateError handler', ob)
+    hs_term = [x for x in hs if method_calls(x, 'send_sess_term', 'self')]
+    h = one(hs_term, 'TerminateError handler that terminates', ob)
+    # a refused peer must not transfer: _in_sess is set before validation (SESS_TERM needs it), so either a "refused"
+    # flag set where validation fails gates the transfer handler, or _in_sess is withdrawn after the SESS_TERM
+    inner = [x for x in hs if x is not h and fv.node(m) in {fv.node(st) for st in walk_local(enclosing(x, (ast.Try,))) if isinstance(st, ast.stmt)} | set()]
+    flags = set()
+    for x in inner:
+        reraises = any(isinstance(r, ast.Raise) and r.exc is None for r in walk_local(x))
+        for n in walk_local(x):
+            if isinstance(n, ast.Assign) and isinstance(n.value, ast.Constant) and n.value.value is True and reraises:
+                for t in n.targets:
+                    if isinstance(t, ast.Attribute) and dotted(t.value) == 'self':
+                        flags.add('self.' + t.attr)
+    withdrawn = [n for n in walk_local(h) if isinstance(n, ast.Assign) and any(src(t) == 'self._in_sess' for t in n.targets) and isinstance(n.value, ast.Constant) and n.value.value is False]
+    fx = FuncView(tree, SESS, 'Messenger.recv_xfer_data')
+    gated = [f for f in flags if any((f, False) in set(facts) for (_n, _l, facts) in fx.exit_facts()) and all((f, False) in set(facts) for (_n, _l, facts) in fx.exit_facts())]
+    if gated:
+        ob.site(SESS, inner[0], 'failed validation sets {}; recv_xfer_data rejects while it is set'.format(gated[0]))
+    elif withdrawn:
+        ob.site(SESS, withdrawn[0], 'failed validation withdraws _in_sess after the SESS_TERM')
+    else:
+        ob.violate(SESS, fv.qual, 'merge_session_params() fails -> SESS_TERM, _in_sess stays True', 'a peer that failed authentication is sent SESS_TERM (contact failure) but every transfer gate tests only '
+                   '_in_sess, which was set before validation: its XFER_SEGMENTs are still acknowledged and the bundle is delivered', m)
     terms = method_calls(h, 'send_sess_term', 'self')
     if not terms or src(terms[0].args[0]) != '{}.reason'.format(h.name):
         ob.violate(SESS, fv.qual, 'except TerminateError', 'termination does not carry the raised reason', h)
